@@ -774,7 +774,7 @@ META = {
                            'exhausts every schedule with <= k pre-emptions at statement granularity; the oracle is an occupancy counter in the '
                            'harness-owned critical section.',
             'functions': _FUNCS, 'bounds': 'quick: 2 threads x 1 round, k<=1 pre-emption (every position), constructor timeout in {-1,0,2}, reentrant and not; '
-            'thorough: 3 threads, 2 rounds, k<=2', 'outside': '4 threads; k>2; 16 free-running OS processes; Windows', 'assumptions': _ASSUME},
+            'thorough: 3 threads, 2 rounds, k<=2; quick also: 3 contenders with a failing timed acquisition, reentrant nesting inside the section, one failing OS unlock over two rounds, a holder object collected while holding with a blocked waiter and a late third contender', 'outside': '4 threads; k>2; 16 free-running OS processes; Windows', 'assumptions': _ASSUME},
     'C12': {'explanation': 'Sequences of FileLock operations (thread, object, kind) with all three components symbolic are executed one operation at a '
                            'time against an executable reference model (owner/depth per object, one flock holder per path); after every operation '
                            'return value / exception, is_locked, open descriptor count in the kernel model and elapsed virtual time are compared, at '
@@ -790,7 +790,7 @@ META = {
                            'acquire within the survivors\' remaining critical sections and survivors never overlap. That the kernel drops the flock '
                            'on process death is the model\'s contract; what is decided about the repository is that no other persistent state '
                            '(marker files, unlink/recreate) can block or split later acquisitions.',
-            'functions': _FUNCS, 'bounds': 'quick: 4 victim programs, kill point 1..60, 0..1 survivors, both priority orders; thorough: 2 survivors, all '
+            'functions': _FUNCS, 'bounds': 'quick: 4 victim programs, kill point 1..60, 0..1 survivors, both priority orders, a contender already polling (timed acquire, poll 1..2) while the holder keeps the lock 3..40 ticks before it dies; thorough: 2 survivors, all '
             'priority orders, kill point 1..90, constructor timeout -1 and 2', 'outside': 'a real SIGKILL and the real kernel (model only)', 'assumptions': _ASSUME},
 }
 
